@@ -74,7 +74,7 @@ MonF(log, i, st, bad) ==
                     THEN IF st.viaBus
                          THEN IF e.res = ReqResultOf(st.code) THEN "" ELSE "req-result-differs-from-bus-reply"
                          ELSE IF st.k0.K = "owner" /\ e.res = "AlreadyOwner" THEN ""
-                              ELSE IF st.k0.K = "queued" /\ e.res = "InQueue" THEN ""
+                              ELSE IF st.k0.K \in {"queued", "lostq"} /\ e.res = "InQueue" THEN ""   \* lostq: the bus re-queued us
                               ELSE "req-local-answer-not-backed-by-bus"
                     ELSE IF st.viaBus
                          THEN IF e.res = (IF st.code = "Released" THEN "true" ELSE "false") THEN "" ELSE "rel-result-differs-from-bus-reply"
